@@ -412,8 +412,7 @@ inline Alphabet makeAlphabet(bool thorough) {
     std::vector<std::string> leaves = {"i32:1",       "u32:1",     "dbl:1",         "flt:1.5",      "i64:-1", "u64:2p64-1", "i64:2p63-1",
                                        "dbl:2p63",    "dbl:nan",   "str-linked:a",  "str-copied:a", "raw:a",  "null:set",   "bool:true",
                                        "arr:[]",      "obj:{}"};
-    std::vector<std::string> few = {"i32:1",        "dbl:1", "u64:2p64-1", "i64:-1",   "i64:2p63-1", "dbl:2p63", "str-linked:a",
-                                    "str-copied:a", "raw:a", "null:set",   "bool:true"};
+    const std::vector<std::string>& few = leaves;
     auto L = [&](const std::string& n) -> Val { return A.get(n); };
     std::vector<Val> W;
     for (auto& x : leaves) {
@@ -594,7 +593,7 @@ inline void pairCase(Ctx& C, const Val& a, const Val& b, bool sameDoc) {
 template <class S>
 inline void scalarCases(Ctx& C, const Alphabet& A, const std::string& ctype, const std::string& value, const Ref& sref, const S& s,
                         const char* matches) {
-  std::string sname = ctype + ":" + value;
+  std::string sname = value.empty() ? ctype : ctype + ":" + value;
   for (const Val& a : A.V) {
     if (a.nested) continue;  // the nested containers of the thorough tier are compared as variants only
     for (int side = 0; side < 2; side++) {
